@@ -3,6 +3,8 @@ package checks
 import (
 	"encoding/json"
 	"os"
+	"strings"
+	"time"
 )
 
 func jsonUnmarshal(b []byte, v interface{}) error { return json.Unmarshal(b, v) }
@@ -34,4 +36,50 @@ func privateCopy(dir string) (string, func()) {
 		return dir, func() {}
 	}
 	return tmp, func() { _ = os.RemoveAll(tmp) }
+}
+
+// awaitWorkload waits for a workload goroutine to finish. Wall clock alone is no verdict on a loaded
+// machine: each time `every` has passed without the workload finishing, the goroutines that run code of the
+// index writer are looked at twice, three seconds apart. Only if all of them are blocked on a channel, lock
+// or wait group, at the same places both times, is that reported (the dump is returned): a deadlock does
+// not resolve with time. Otherwise the wait goes on - a workload that is merely slow finishes; one that
+// spins for ever is ended by the child runner's progress watchdog, run again alone in a fresh child with a
+// watchdog of five minutes, and reported (Hung) if it stalls there as well.
+//
+// The workload's own goroutine (the one with workloadFrame on its stack) must be among the blocked ones, inside
+// a call into the writer: background goroutines that sit in their select while the harness is busy elsewhere
+// are the writer's normal idle state.
+func awaitWorkload(done <-chan struct{}, every time.Duration, workloadFrame string) (deadlock string) {
+	inWriter := func(dump string) bool {
+		for _, blk := range strings.Split(dump, "\n\n") {
+			if strings.Contains(blk, workloadFrame) && strings.Contains(blk, "blugelabs/bluge/index.(*Writer).") {
+				return true
+			}
+		}
+		return false
+	}
+	for {
+		select {
+		case <-done:
+			return ""
+		case <-time.After(every):
+		}
+		d1 := goroutineDump()
+		select {
+		case <-done:
+			return ""
+		case <-time.After(3 * time.Second):
+		}
+		d2 := goroutineDump()
+		s1, ok1 := writerGoroutines(d1)
+		s2, ok2 := writerGoroutines(d2)
+		if ok1 && ok2 && s1 != "" && s1 == s2 && inWriter(d1) && inWriter(d2) {
+			select {
+			case <-done:
+				return ""
+			default:
+			}
+			return d2
+		}
+	}
 }
